@@ -32,7 +32,7 @@ THEOREMS = [
     'IblVerif.C04.rerun_partial_folders_counterexample',
 ]
 RULE = ('histories of 1..4 (thorough: ..5) calls NP2Converter(file, post_check, delete_original, compress).process(overwrite) on a tiny '
-        'recording (600..2500 samples x 385 channels, window 1200 or 1800, i.e. 1..4 processing windows; real fixture metadata: NP2.4 with '
+        'recording (600..3700 samples x 385 channels, window 1200 or 1800, i.e. 1..5 processing and 1..4 verification windows; real fixture metadata: NP2.4 with '
         'the shank map folded to 1..4 shanks, NP2.1, NP1; original as .bin or .cbin); every call draws the three options and overwrite '
         'uniformly, an interruption (none 45 %, else the j-th _split2shanks / write_meta_data / Reader.read inside check_NP24 / '
         'Reader.compress_file call or delete_NP24, index biased to 0, last, one past the last) and, for NP2.4, sometimes an unfaithful '
@@ -49,7 +49,7 @@ ASSUMPTIONS = [
     'every call of a history uses a new NP2Converter object and the same window size; the file handed to it is the original .bin, else the '
     'original .cbin, else the (missing) .bin path; the already-split call is made only when shank 0\'s ap file and its .meta are complete',
     'mtscomp compression is lossless and deterministic (checked: every .cbin met is decoded and compared with the expected bytes)',
-    'the unfaithful split alters one AP (non-sync) channel in the last row: check_NP24 compares the sync column of the first shank only',
+    'the unfaithful split alters one AP (non-sync) sample (any row): check_NP24 compares the sync column of the first shank only; the model is told which processing window keeps the row and which verification window reads it (derived in the harness from the row)',
     'LF content is taken from an uninterrupted reference run of the same code (its correctness is C12); AP content, sizes of partially '
     'written files and the shank columns are derived independently from the original and the shank map',
     'a run without overwrite when only some of the expected shank folders exist creates the missing ones (empty files) and returns 0; no '
@@ -132,6 +132,18 @@ class Rec:
         from ibldsp.utils import WindowGenerator
         return int(WindowGenerator(self.ns, self.w, self.ov).nwin)
 
+    def kept_window(self, row):
+        """index of the processing window whose kept range [first + ov/2 (0 for the first), first + w - ov/2 (ns for the
+        last)) contains `row`; nwin when the row does not exist"""
+        nw = self.nwin()
+        for k in range(nw):
+            first = k * (self.w - self.ov)
+            lo = 0 if k == 0 else first + self.ov // 2
+            hi = self.ns if k == nw - 1 else first + self.w - self.ov // 2
+            if lo <= row < hi:
+                return k
+        return nw
+
     def rows_after(self, k, ratio):
         if k == 0:
             return 0
@@ -200,7 +212,7 @@ class Rec:
 # ---------------------------------------------------------------------------------------------
 @contextlib.contextmanager
 def faults(point, corrupt):
-    """point: None | ('s', j) | ('m', j) | ('v', k) | ('c', j) | ('d',); corrupt: None | shank index"""
+    """point: None | ('s', j) | ('m', j) | ('v', k) | ('c', j) | ('d',); corrupt: None | (shank index, row)"""
     import mtscomp
     import neuropixel
     import spikeglx
@@ -218,11 +230,12 @@ def faults(point, corrupt):
         if point == ('s', j):
             raise Injected()
         if corrupt is not None and etype == 'ap' and self.np_version == 'NP2.4':
+            r0 = cnt['aprows']          # the ap chunks handed over are the kept rows, in order: row index = sample index
             cnt['aprows'] += chunk.shape[0]
-            key = f'shank{corrupt}'
-            if cnt['aprows'] == self.nsamples and key in self.shank_info:
+            key = f'shank{corrupt[0]}'
+            if r0 <= corrupt[1] < cnt['aprows'] and key in self.shank_info:
                 chunk = chunk.copy()
-                chunk[-1, self.shank_info[key]['chns'][0]] ^= 1
+                chunk[corrupt[1] - r0, self.shank_info[key]['chns'][0]] ^= 1
         return o_split(self, chunk, etype=etype)
 
     def write_meta_data(md, md_file):
@@ -361,8 +374,8 @@ def _fileset(d, et, expected, meta_ref, rec, nchan, ratio, seen):
         else:
             b = f'junk{len(raw)}'
             for k in range(0, rec.nwin()):
-                if len(raw) == rec.rows_after(k, ratio) * nchan * 2 and (expected is None or expected.startswith(raw)):
-                    b = f'p{k}'
+                if len(raw) == rec.rows_after(k, ratio) * nchan * 2:
+                    b = f'p{k}' if expected is None or expected.startswith(raw) else f'p{k}b'
                     break
     # .cbin
     p = names['.cbin']
@@ -579,7 +592,8 @@ def orig_present(root):
 
 
 def effective_fault(rec, call):
-    return call['int'] is not None or (call['cor'] is not None and rec.kind == 'np24' and call['cor'] < rec.n)
+    return call['int'] is not None or (call['cor'] is not None and rec.kind == 'np24' and call['cor'][0] < rec.n
+                                       and call['cor'][1] < rec.ns)
 
 
 def oracle_step(root, rec, call, pre, res):
@@ -639,13 +653,23 @@ def facts_before(root, rec):
 def call_token(c):
     i = c['int']
     it = '-' if i is None else ('d' if i[0] == 'd' else f'{i[0]}{i[1]}')
-    return f"{c['pc']}{c['cp']}{c['dl']}{c['ow']}{c['sh']}:{it}:{'-' if c['cor'] is None else c['cor']}"
+    return f"{c['pc']}{c['cp']}{c['dl']}{c['ow']}{c['sh']}:{it}:{'-' if c['cor'] is None else '%d@%d' % c['cor']}"
+
+
+def lean_call_token(rec, c):
+    """the same call for the model: the altered sample is named by (shank, processing window that keeps its row,
+    verification window that reads it) -- own derivation of the two window indices from the row"""
+    tok = call_token(c)
+    if c['cor'] is None:
+        return tok
+    sh, row = c['cor']
+    return tok.rsplit(':', 1)[0] + f':{sh}.{rec.kept_window(row)}.{row // rec.w}'
 
 
 def parse_call(tok):
     b, i, c = tok.split(':')
     it = None if i == '-' else (('d',) if i == 'd' else (i[0], int(i[1:])))
-    return dict(pc=int(b[0]), cp=int(b[1]), dl=int(b[2]), ow=int(b[3]), sh=int(b[4]), int=it, cor=None if c == '-' else int(c))
+    return dict(pc=int(b[0]), cp=int(b[1]), dl=int(b[2]), ow=int(b[3]), sh=int(b[4]), int=it, cor=None if c == '-' else tuple(int(x) for x in c.split('@')))
 
 
 def cfg_tokens(cfg):
@@ -698,7 +722,14 @@ def gen_call(rng, rec, state_tok):
             c['ow'] = 1
     if rec.kind == 'np24':
         if rng.random() < 0.18:
-            c['cor'] = int(rng.integers(0, n + 1))      # n itself: no such shank, ineffective
+            nv = -(-rec.ns // rec.w)
+            pos = ['first', 'middle', 'last'][int(rng.integers(0, 3))]
+            kv = 0 if pos == 'first' else (nv - 1 if pos == 'last' else int(rng.integers(0, nv)))
+            lo, hi = kv * rec.w, min((kv + 1) * rec.w, rec.ns)
+            row = [lo, hi - 1, int(rng.integers(lo, hi))][int(rng.integers(0, 3))]
+            c['cor'] = (int(rng.integers(0, n + 1)), row)      # shank n itself: no such shank, ineffective
+            if rng.random() < 0.6:
+                c['pc'] = 1
         if target_complete(state_tok) and rng.random() < 0.12:
             c['sh'] = 1
     return c
@@ -736,7 +767,9 @@ def run_history(rec, orig, calls=None, rng=None, length=0, oracle=True):
     return out_calls, toks, verdicts
 
 
-CONFIGS_NS = [(700, 1200), (1500, 1200), (1824, 1200), (2000, 1200), (2500, 1200), (2400, 1800), (600, 1800)]
+# (ns, window): 1, 2, 2, 2, 3, 3, 4, 2, 1 verification windows (check_NP24 uses overlap 0) and 1..5 processing windows
+CONFIGS_NS = [(700, 1200), (1500, 1200), (1824, 1200), (2000, 1200), (2500, 1200), (3000, 1200), (3700, 1200), (2400, 1800),
+              (600, 1800)]
 
 
 def gen_cfg(rng, ov):
@@ -744,6 +777,8 @@ def gen_cfg(rng, ov):
     kind = 'np24' if r < 0.62 else ('np21' if r < 0.92 else 'np1')
     n = int(rng.integers(1, 5)) if kind == 'np24' else 1
     ns, w = CONFIGS_NS[int(rng.integers(0, len(CONFIGS_NS)))]
+    if kind == 'np24' and rng.random() < 0.4:       # spans >= 3 verification windows
+        ns, w = [(2500, 1200), (3000, 1200), (3700, 1200)][int(rng.integers(0, 3))]
     return dict(kind=kind, n=n, ns=ns, w=w, ov=ov, orig='bin' if rng.random() < 0.7 else 'cbin')
 
 
@@ -760,6 +795,11 @@ def _tags(cfg, calls, toks):
             tags.append('int-fired' if res == 'raise:injected' else 'int-not-fired')
         if c['cor'] is not None:
             tags.append('unfaithful-split')
+            nv = -(-cfg['ns'] // cfg['w'])
+            kv = c['cor'][1] // cfg['w']
+            tags.append('altered-window=' + ('only' if nv == 1 else 'first' if kv == 0 else 'last' if kv == nv - 1 else 'middle'))
+            if cfg['kind'] == 'np24' and c['pc'] and c['cor'][0] < cfg['n'] and res in ('raise:assertion', 'ret1'):
+                tags.append(f'altered+post_check->{res}')
         if c['sh']:
             tags.append('already-split-call')
         if st.startswith('o=absent') and prev_state is not None and not prev_state.startswith('o=absent'):
@@ -825,7 +865,9 @@ def correspondence(ctx):
         hist.append((cfg, calls, toks, ver))
         done += 1
     ctx.note(f'{len(hist)} histories, {sum(len(h[1]) for h in hist)} calls executed on the real code')
-    lines = ['hist ' + cfg_tokens(cfg) + ' ' + ' '.join(call_token(c) for c in calls) for cfg, calls, _, _ in hist]
+    lines = ['hist ' + cfg_tokens(cfg) + ' ' +
+             ' '.join(lean_call_token(Rec.get(cfg['kind'], cfg['n'], cfg['ns'], cfg['w'], cfg['ov']), c) for c in calls)
+             for cfg, calls, _, _ in hist]
     answers = ctx.lean(lines)
     nviol = 0
     for (cfg, calls, toks, ver), ans in zip(hist, answers):
@@ -857,12 +899,22 @@ def staple_histories(ov):
         base = dict(kind=kind, n=n, ns=2000, w=1200, ov=ov, orig='bin')
         out.append((base, ['11000:-:-', '11000:-:-', '11110:-:-', '11001:-:-' if kind == 'np24' else '11000:-:-']))  # the suite's history
         out.append((base, ['11010:-:-', '11000:-:-']))                  # overwrite on a fresh folder (F3)
-        out.append((base, ['01100:-:-', '01110:-:-', '01110:-:0']))     # delete_original without verification
+        out.append((base, ['01100:-:-', '01110:-:-', '01110:-:0@0']))     # delete_original without verification
         out.append((base, ['11100:s1:-', '11100:-:-', '11110:-:-']))    # interrupted, retried, forced
         out.append((base, ['11100:c0:-', '11110:c1:-', '10010:-:-']))   # interrupted compression
-        out.append((base, ['11100:-:0', '11110:-:1', '01110:-:1', '11110:-:-']))  # unfaithful split with / without verification
+        out.append((base, ['11100:-:0@1999', '11110:-:1@0', '01110:-:1@1300', '11110:-:-']))  # unfaithful split with / without verification
         out.append((dict(base, orig='cbin'), ['11100:m1:-', '11110:v2:-', '11110:d:-', '11110:-:-']))
     out.append((dict(kind='np1', n=1, ns=700, w=1200, ov=ov, orig='bin'), ['11100:-:-', '11110:s0:-']))
+    # an altered sample in the first / middle / last of three verification windows, with and without verification, and the
+    # order of the window's assert and an exception injected at a later / earlier read (3 reads per window for 2 shanks)
+    b3 = dict(kind='np24', n=2, ns=2500, w=1200, ov=ov, orig='bin')
+    for row in (0, 1199, 1200, 1300, 2399, 2400, 2499):
+        out.append((b3, [f'11100:-:{row % 2}@{row}']))
+    out.append((b3, ['01100:-:1@0', '11110:-:0@1300', '11110:-:-']))
+    out.append((b3, ['11100:v2:1@0', '11110:v3:1@0', '11110:v5:0@1300', '11110:v6:0@1300', '11110:v8:1@2499']))
+    out.append((b3, ['11100:s5:0@0', '11110:s3:1@700', '11110:s4:1@1300']))     # partial files that hold the altered sample
+    b4 = dict(kind='np24', n=3, ns=3700, w=1200, ov=ov, orig='cbin')
+    out.append((b4, ['11100:-:2@1250', '11110:-:0@2500', '11110:-:1@3699']))
     # known finding partial-folders-rerun: only some expected folders exist (model and code agree on what happens)
     out.append((dict(kind='np24', n=2, ns=1500, w=1200, ov=ov, orig='bin@1'), ['11000:-:-', '11000:-:-', '11010:-:-']))
     out.append((dict(kind='np24', n=3, ns=1500, w=1200, ov=ov, orig='cbin@2'), ['00100:s1:-', '11110:-:-']))
@@ -893,7 +945,19 @@ def exhaustive_single_calls(ov):
                 for p in all_points(rec):
                     out.append((cfg, prefix + [f'{b}:{p}:-']))
                 if kind == 'np24':
-                    out.append((cfg, prefix + [f'{b}:-:1']))
+                    out.append((cfg, prefix + [f'{b}:-:1@0']))
+                    out.append((cfg, prefix + [f'{b}:-:1@1499']))
+    # three verification windows: every option triple x altered sample in the first / middle / last window x shank, and the
+    # verified runs again with an exception injected at every read index of check_NP24
+    cfg = dict(kind='np24', n=2, ns=2500, w=1200, ov=ov, orig='bin')
+    for bits in range(16):
+        b = f'{bits >> 3 & 1}{bits >> 2 & 1}{bits >> 1 & 1}{bits & 1}0'
+        for row in (0, 1300, 2499):
+            for sh in (0, 1):
+                out.append((cfg, [f'{b}:-:{sh}@{row}']))
+            if bits >> 3 & 1:
+                for k in range(0, 10):
+                    out.append((cfg, [f'{b}:v{k}:1@{row}']))
     return out
 
 
@@ -940,7 +1004,7 @@ def _shrink(cfg, call_toks):
 
 def _systematic(ov):
     """short histories around every clause of the property"""
-    firsts = [[], ['11000:-:-'], ['00000:-:-'], ['11000:s1:-'], ['11000:m1:-'], ['11000:c0:-'], ['11000:c1:-'], ['01000:-:0']]
+    firsts = [[], ['11000:-:-'], ['00000:-:-'], ['11000:s1:-'], ['11000:m1:-'], ['11000:c0:-'], ['11000:c1:-'], ['01000:-:0@0']]
     for kind, n in (('np24', 2), ('np21', 1), ('np1', 1)):
         for orig in ('bin', 'cbin'):
             cfg = dict(kind=kind, n=n, ns=1500, w=1200, ov=ov, orig=orig)
@@ -952,8 +1016,12 @@ def _systematic(ov):
                     for p in ('s0', 's3', 'm0', 'm3', 'v0', 'v5', 'c0', 'c1', 'c3', 'd'):
                         yield cfg, f + [f'{b}:{p}:-']
                     if kind == 'np24':
-                        yield cfg, f + [f'{b}:-:1']
-                        yield cfg, f + [f'{b}:-:0', '11110:-:-']
+                        for row in (0, 1499):
+                            yield cfg, f + [f'{b}:-:1@{row}']
+                            yield cfg, f + [f'{b}:-:0@{row}', '11110:-:-']
+                        if not f:
+                            for row in (0, 1300, 2499):
+                                yield dict(cfg, ns=2500), [f'{b}:-:1@{row}']
                 if kind == 'np24' and f in (['11000:-:-'], ['00000:-:-']):
                     yield cfg, f + ['11001:-:-']
 
@@ -996,7 +1064,7 @@ def search(ctx, reasons):
     cfg, toks, why, states = best
     return {'input': {'cfg': cfg, 'calls': toks,
                       'legend': 'call = <post_check><compress><delete_original><overwrite><on shank file>:<interruption s/m/v/c<j> or d>:'
-                                '<shank whose last ap row is altered>'},
+                                '<shank>@<row of the AP sample altered before it is written>'},
             'observed': {'violation': why, 'results_and_disk_after_each_call': states},
             'expected': 'C04: original recoverable byte for byte after every call; removed only after a passed bit-exact verification; '
                         'rerun without overwrite = no change + status 0; first / forced run without fault = status 1 + complete valid set; '
